@@ -318,7 +318,8 @@ CLAIM = dict(
          'every source reference to an owned, listed reference of the same name and length. The model is run step by step against the implementation on random '
          'edit histories on every run, and an independent oracle checks the invariants and the text/binary round trips on the real objects. '
          'Text and binary round trips are proved in full for every header of an HInv world whose values are printable (WFH: no TAB/LF/CR in values, ranges, canonical dates/URIs, distinct non-standard tags): '
-         'NewHeader(MarshalText h) and DecodeBinary(EncodeBinary h) succeed and expose the same values, text and bytes (incl. non-standard @SQ tags).',
+         'NewHeader(MarshalText h) and DecodeBinary(EncodeBinary h) succeed and expose the same values, text and bytes (incl. non-standard @SQ tags); '
+         'wfh_preserved: every history with clean arguments (clean_op) keeps every header printable, so both round trips hold for every header built through the API (binary decode as a history step excepted).',
     note='Trusted: Coq kernel; the hand model (tied to the code by correspondence runs only); opaque time/URL functions (tables validated against the libraries on every run); '
          'Go maps as association lists; sort.Sort on tag pairs as insertion sort (tags unique per item). 13 defects found and repaired in the library (see design/C07.md).',
     technique='Coq proof over hand model (invariant by induction over histories) + vm_compute correspondence on edit histories + invariant/round-trip oracle on the real objects',
